@@ -3,8 +3,11 @@ package drv
 import (
 	"encoding/json"
 	"fmt"
+	"math/rand"
+	"runtime"
 	"runtime/debug"
 	"sort"
+	"sync"
 	"time"
 
 	"github.com/rulego/streamsql"
@@ -24,13 +27,15 @@ type SeqScenario struct {
 	Stop   bool             `json:"stop"`    // call Stop before the quiesce event (CEP flush)
 	Sort   string           `json:"sort"`    // sort delivered rows of a batch by this column (when the statement leaves order open)
 	Tables []SeqTable       `json:"tables"`
-	Burst  bool             `json:"burst"` // emit every row without waiting in between (ordering / conservation); quiesce once at the end
-	Hold   string           `json:"hold"`  // burst only: name of a hook point at which the engine goroutine is held until every row has been handed in
-	Perf   *SeqPerf         `json:"perf"`  // custom performance configuration
-	Ops    []SeqOp          `json:"ops"`   // optional explicit operation list (JOIN scenarios); when empty: emit every row
-	GapMs  int64            `json:"gap_ms"`  // STATETTL scenarios: real-time pause before every row
-	TTLMs  int64            `json:"ttl_ms"`  // STATETTL of the query: the trace is voided when the driver itself let a group idle too long
-	Span   int              `json:"span"`    // rows of one group are at most this many positions apart
+	Burst  bool             `json:"burst"`  // emit every row without waiting in between (ordering / conservation); quiesce once at the end
+	Hold   string           `json:"hold"`   // burst only: name of a hook point at which the engine goroutine is held until every row has been handed in
+	Perf   *SeqPerf         `json:"perf"`   // custom performance configuration
+	Ops    []SeqOp          `json:"ops"`    // optional explicit operation list (JOIN scenarios); when empty: emit every row
+	GapMs  int64            `json:"gap_ms"` // STATETTL scenarios: real-time pause before every row
+	TTLMs  int64            `json:"ttl_ms"` // STATETTL of the query: the trace is voided when the driver itself let a group idle too long
+	Span   int              `json:"span"`   // rows of one group are at most this many positions apart
+	Conc   bool             `json:"conc"`   // JOIN scenarios: table updates run in a goroutine of their own, concurrently with EmitSync callers
+	Seed   int64            `json:"seed"`
 }
 
 // SeqPerf selects buffer sizes and the overflow strategy.
@@ -209,6 +214,9 @@ func RunSeq(sc SeqScenario) (evs []Ev, inconclusive string) {
 		}
 		return true
 	}
+	if sc.Conc {
+		return runConc(sc, in, s, srcs), ""
+	}
 	ops := sc.Ops
 	if len(ops) == 0 {
 		for _, r := range sc.Rows {
@@ -354,4 +362,82 @@ func callSync(s *streamsql.Streamsql, row map[string]any) (res map[string]any, e
 	}()
 	res, err = s.EmitSync(row)
 	return
+}
+
+// runConc: one goroutine applies the scenario's upsert / delete operations in order while two others push its rows through
+// EmitSync; every call is bracketed by a line logged BEFORE the call and one logged AFTER its return (one lock orders the lines).
+func runConc(sc SeqScenario, in *Inst, s *streamsql.Streamsql, srcs map[string]*stream.MemoryTableSource) []Ev {
+	var ups, rows []SeqOp
+	for _, op := range sc.Ops {
+		if op.Op == "upsert" || op.Op == "delete" {
+			ups = append(ups, op)
+		} else {
+			rows = append(rows, op)
+		}
+	}
+	var wg sync.WaitGroup
+	jitter := func(r *rand.Rand) {
+		switch r.Intn(4) {
+		case 0:
+			runtime.Gosched()
+		case 1:
+			time.Sleep(time.Duration(r.Intn(200)) * time.Microsecond)
+		}
+	}
+	wg.Add(1)
+	go func() {
+		defer wg.Done()
+		r := rand.New(rand.NewSource(sc.Seed))
+		for i, op := range ups {
+			jitter(r)
+			if op.Op == "upsert" {
+				row := decodeRow(op.Row)
+				in.Log(Ev{"tr": sc.Tr, "e": "ucall", "i": i + 1, "op": "upsert", "table": op.Table, "row": AbsRow(row)})
+				_ = s.UpsertTable(op.Table, row)
+			} else {
+				key := make([]any, len(op.Key))
+				ak := make([]any, len(op.Key))
+				for k, v := range op.Key {
+					key[k] = Decode(v)
+					ak[k] = Abs(key[k])
+				}
+				in.Log(Ev{"tr": sc.Tr, "e": "ucall", "i": i + 1, "op": "delete", "table": op.Table, "key": ak})
+				if src := srcs[op.Table]; src != nil {
+					if len(key) == 1 {
+						src.Delete(key[0])
+					} else {
+						src.Delete(key)
+					}
+				}
+			}
+			in.Log(Ev{"tr": sc.Tr, "e": "uret", "i": i + 1})
+		}
+	}()
+	for w := 0; w < 2; w++ {
+		wg.Add(1)
+		go func(w int) {
+			defer wg.Done()
+			r := rand.New(rand.NewSource(sc.Seed + int64(w) + 1))
+			for i := w; i < len(rows); i += 2 {
+				jitter(r)
+				row := decodeRow(rows[i].Row)
+				in.Log(Ev{"tr": sc.Tr, "e": "rcall", "id": i + 1, "row": AbsRow(row)})
+				res, err, pan := callSync(s, row)
+				e := Ev{"tr": sc.Tr, "e": "rret", "id": i + 1, "panic": pan, "err": b2i(err != nil), "has": b2i(res != nil)}
+				if res != nil {
+					e["row"] = AbsRow(res)
+				}
+				in.Log(e)
+			}
+		}(w)
+	}
+	wg.Wait()
+	in.Log(Ev{"tr": sc.Tr, "e": "quiesce"})
+	evs := []Ev{}
+	for _, e := range in.Events() {
+		if e["e"] != "out" { // sink deliveries are not ordered against the brackets; the returned row is what is judged
+			evs = append(evs, e)
+		}
+	}
+	return evs
 }
